@@ -12,6 +12,10 @@ structure Hist where
   kinds : List (Nat × Char) := []      -- allocated ids with their kind
   held : List Nat := []
   ended : Bool := false
+  /-- kind-q objects: what their destructors allocate (child id, arena slot) -/
+  qs : List (Nat × List (Nat × Nat)) := []
+  /-- identities reserved for those children (not yet allocated) -/
+  reserved : List Nat := []
 
 def Hist.kindOf (h : Hist) (a : Nat) : Option Char := (h.kinds.find? (·.1 == a)).map (·.2)
 def Hist.allocated (h : Hist) (a : Nat) : Bool := h.kinds.any (·.1 == a)
@@ -54,52 +58,65 @@ def observe (tag : String) (h : Hist) (pend : List Nat) (withReg : Bool) (setOnl
   let regS := ",".intercalate (regs.map (fun (a, r) => toString a ++ (if r then "r" else "")))
   s!"{base} reg={regS} run={if h.st.running then 1 else 0} mit={h.st.mitems}"
 
-def doOp (h : Hist) (tag : String) (op : Op) (withReg : Bool := true) : Hist × String :=
-  let s0 := { h.st with log := [] }
+/-- the destructors of the kind-q objects, re-declared in the state the op starts from: a collection that one of their
+    registrations runs marks what the program reaches now (roots, the held objects) and the object being registered -/
+def declareDtors (h : Hist) (s : St) : St :=
+  let ms := markSet s h.held
+  h.qs.foldl (fun st (q, cs) =>
+    step sourceCfg st (Op.dtor q (cs.map (fun (c, _) => ⟨c, ms ++ [c], []⟩)))) { s with dalloc := [] }
+
+def doOp (h : Hist) (tag : String) (op : Op) (withReg : Bool := true) (after : List Op := []) : Hist × String :=
+  let s0 := declareDtors h { h.st with log := [] }
   let pend := stepPending s0 op
-  let s1 := step sourceCfg s0 op
-  let h' := { h with st := s1 }
+  let s1 := (op :: after).foldl (step sourceCfg) s0
+  -- the allocating destructors that ran during the op: their children exist from now on
+  let ran := h.qs.filter (fun (q, cs) => !cs.isEmpty && s1.log.contains (Ev.fin q))
+  let born := ran.flatMap (fun (_, cs) => cs.map (·.1))
+  let h' := { h with st := s1, kinds := born.map (fun c => (c, 'p')) ++ h.kinds,
+                     reserved := h.reserved.filter (fun c => !born.contains c) }
   -- a registration that runs a threshold collection: the harness compares the set of finalised objects only (the real
-  -- conservative stack scan may keep some garbage, which the harness then reclaims with a second collection)
-  let setOnly := match op with
-    | .new _ k _ _ _ => k != .raw && s0.running && s0.reg.length + 1 > s0.mitems
-    | _ => false
+  -- conservative stack scan may keep some garbage, which the harness then reclaims with a second collection); the same
+  -- for an op during which an allocating destructor ran
+  let setOnly := (match op with
+    | .new _ k _ _ _ | .alloc _ k _ _ => k != .raw && s0.running && s0.reg.length + 1 > s0.mitems
+    | _ => false) || !ran.isEmpty
   (h', observe tag h' pend withReg setOnly)
 
 def kindOfChar (c : Char) : Kind := if c = 'r' then .root else if c = 'w' then .raw else .std
 
-/-- one op line inside a history; returns the new history state and the line to print -/
-def opLine (h : Hist) (toks : List String) : Hist × String :=
+def pairUp : List Nat → List (Nat × Nat)
+  | c :: sl :: r => (c, sl) :: pairUp r
+  | _ => []
+
+/-- the ops other than `n` / `a` -/
+def opLine2 (h : Hist) (toks : List String) : Hist × String :=
   let bad := (h, "O bad-op")
   match toks with
-  | "n" :: idS :: kindS :: howS :: slotS :: ownedS :: rest =>
-    match idS.toNat?, slotS.toNat?, kindS.toList, howS.toList with
-    | some id, some slot, [kc], [hc] =>
-      if id ≥ 65536 || !("pbBa".toList.contains kc) || !("srw".toList.contains hc) then bad else
-      let owned? : Option (Option Nat) := if ownedS = "-" then some none else (ownedS.toNat?).map some
-      match owned? with
-      | none => bad
-      | some owned =>
-        if (match owned with | some o => decide (o ≥ 65536) | none => false) then bad else
-        let orderOk : Option (List Nat) := match rest with
-          | [] => some []
-          | t :: r => if t = ";" then (parseIds r).map (·.1) else none
-        match orderOk with
-        | none => bad
-        | some order =>
-          if h.allocated id then bad else
-          if kc != 'B' && slot ≥ 16384 then bad else
-          if (match owned with | some o => !h.allocated o || kc = 'p' || kc = 'a' | none => false) then bad else
-          let marks := markSet h.st h.held ++ [id]
-          let op := Op.new id (kindOfChar hc) (match owned with | some o => [o] | none => []) marks order
-          let (h', line) := doOp h "n" op
-          ({ h' with kinds := (id, kc) :: h'.kinds }, line)
-    | _, _, _, _ => bad
   | ["d", idS, howS] =>
     match idS.toNat?, howS.toList with
     | some id, [hc] =>
       if !("srw".toList.contains hc) || !h.allocated id then bad else
       doOp h "d" (Op.del id (kindOfChar hc))
+    | _, _ => bad
+  | ["D", idS, howS] =>
+    match idS.toNat?, howS.toList with
+    | some id, [hc] =>
+      if !("srw".toList.contains hc) || !h.allocated id || h.kindOf id == some 'B' then bad else
+      doOp h "D" (Op.dealloc id (kindOfChar hc))
+    | _, _ => bad
+  | "q" :: idS :: rest =>
+    match idS.toNat?, parseIds rest with
+    | some id, some (vals, []) =>
+      if h.kindOf id != some 'q' || vals.length % 2 != 0 || vals.length > 8 then bad else
+      let cs := pairUp vals
+      let ids := cs.map (·.1)
+      if cs.any (fun (c, sl) => h.allocated c || h.reserved.contains c || sl ≥ 16384) || !ids.Nodup then bad else
+      -- children reserved by an earlier `q` of the same object are released
+      let old : List Nat := match h.qs.find? (fun p => p.1 == id) with | some (_, ocs) => ocs.map (fun p => p.1) | none => []
+      let h' := { h with qs := (id, cs) :: h.qs.filter (fun p => p.1 != id),
+                         reserved := ids ++ h.reserved.filter (fun c => !old.contains c),
+                         st := { h.st with log := [] } }
+      (h', observe "q" h' [] true)
     | _, _ => bad
   | ["o", idS, tgS] =>
     match idS.toNat? with
@@ -141,6 +158,39 @@ def opLine (h : Hist) (toks : List String) : Hist × String :=
       | none => bad
     | _ => bad
   | _ => bad
+
+/-- one op line inside a history; returns the new history state and the line to print -/
+def opLine (h : Hist) (toks : List String) : Hist × String :=
+  let bad := (h, "O bad-op")
+  match toks with
+  | opS :: idS :: kindS :: howS :: slotS :: ownedS :: rest =>
+    if opS != "n" && opS != "a" then opLine2 h toks else
+    match idS.toNat?, slotS.toNat?, kindS.toList, howS.toList with
+    | some id, some slot, [kc], [hc] =>
+      if id ≥ 65536 || !("pqbBa".toList.contains kc) || !("srw".toList.contains hc) then bad else
+      let owned? : Option (Option Nat) := if ownedS = "-" then some none else (ownedS.toNat?).map some
+      match owned? with
+      | none => bad
+      | some owned =>
+        if (match owned with | some o => decide (o ≥ 65536) | none => false) then bad else
+        let orderOk : Option (List Nat) := match rest with
+          | [] => some []
+          | t :: r => if t = ";" then (parseIds r).map (·.1) else none
+        match orderOk with
+        | none => bad
+        | some order =>
+          if h.allocated id || h.reserved.contains id then bad else
+          if kc != 'B' && slot ≥ 16384 then bad else
+          if (match owned with | some o => !h.allocated o || kc = 'p' || kc = 'q' || kc = 'a' | none => false) then bad else
+          let marks := markSet h.st h.held ++ [id]
+          let ownedL := match owned with | some o => [o] | none => []
+          -- `a`: alloc / alloc_root / alloc_raw, then the constructor (its ownership link)
+          let (h', line) :=
+            if opS = "n" then doOp h "n" (Op.new id (kindOfChar hc) ownedL marks order)
+            else doOp h "a" (Op.alloc id (kindOfChar hc) marks order) true [Op.own id ownedL]
+          ({ h' with kinds := (id, kc) :: h'.kinds }, line)
+    | _, _, _, _ => bad
+  | _ => opLine2 h toks
 
 def main (args : List String) : IO Unit := do
   let lines ← Driver.inputLines args
